@@ -37,10 +37,14 @@ def sign(x):
 def impl_variant():
     """which comparators / Zero hash data the tree under test has (read from its own dispatch table and from one call)"""
     import ufl
-    from ufl.sorting import _terminal_cmps
-    from ufl.classes import Constant, Zero
+    from ufl.classes import Zero
     from ufl.algorithms.signature import compute_terminal_hashdata
-    order = "N" if Constant._ufl_typecode_ in _terminal_cmps else "R"
+    from translate import ordervariant
+    # the same translator output as Gen/OrderVariant.lean (`Expr.OrdCfg.live`, C29): "R" = repr comparators, "N" = numeric ones;
+    # a mixture is neither of the two orderings this property analyses (theorem C12_live_variant does not compile either)
+    order = ordervariant.variant()
+    if order not in ("R", "N"):
+        raise RuntimeError("ufl/sorting.py compares some of Constant / geometric quantities / Zero by repr and some by numbers: %r" % (ordervariant.read(),))
     z = Zero((), (5,), (2,))
     zfix = 0 if compute_terminal_hashdata(z, {})[z] == repr(z) else 1
     return order, zfix
@@ -213,7 +217,7 @@ class C12(Prop):
     pid = "C12"
     lean_modules = ["UflVerif.Props.C12"]
     min_theorems = 22
-    trusted = ["translator harness/translate/typecodes.py (typecode table); correspondence harness/props/c12.py + harness/c12lib.py + Drivers/C12.lean",
+    trusted = ["translators harness/translate/typecodes.py (typecode table), harness/translate/ordervariant.py (which terminal comparators the tree has); correspondence harness/props/c12.py + harness/c12lib.py + Drivers/C12.lean",
                "Python's `str` of tuples/lists/bytes and hashlib.sha512 are applied by the harness to the model's pre-hash data to obtain the model's signature (so the comparison with form.signature() is hex-exact); "
                "equal pre-hash data gives equal signatures trivially; that different data gives different signatures is C11's assumption, not used here",
                "modelled rather than verified: CPython hash randomisation and set/dict iteration order (subprocess runs only); element reprs are opaque strings; "
@@ -424,11 +428,8 @@ class C12(Prop):
         rreqs, rimpl = [], []
         rmemo = {}
         rforms = [form for (_, _, form) in hsig][: (60 if ctx.quick else 600)] + [self.directed[k] for k in sorted(self.directed) if k[1] in (0, 2, 6)]
-        if order != "R":
-            # `Expr.renumber` rebuilds Sum/Product with `Expr.cmp` of Model/Order.lean, which models the repr comparators; it is C29/C10's
-            # model and has to follow the tree (it has no mesh ids to compare numerically): no tie through it for another ordering
-            rforms = []
-            ev.cov["renumber_tie"] = "skipped: Model/Order.lean models the repr comparators, the tree under test has numeric ones"
+        # `Expr.renumber` rebuilds Sum/Product with `Expr.cmp` of Model/Order.lean, which follows the comparators of the tree under
+        # test (Gen/OrderVariant.lean, regenerated by harness/common.py for every check)
         for form in rforms:
             for itg in form.integrals():
                 e = itg.integrand()
